@@ -84,16 +84,20 @@ def ensure_facts(repo="/repo", use_cache=True, extra_args=(), tag=""):
     try:
         ok = os.path.exists(os.path.join(d, "DONE"))
         if ok and use_cache:
+            try:
+                os.utime(d, None)
+            except OSError:
+                pass
             return d, th, False, time.time() - t0
         if os.path.exists(d):
             shutil.rmtree(d)
-        # keep the cache small: drop older entries
+        # keep the cache small: drop entries not used for two hours (entries in use are touched)
         for e in os.listdir(CACHE_ROOT):
-            p = os.path.join(CACHE_ROOT, e)
-            if os.path.isdir(p) and e != key:
+            pth = os.path.join(CACHE_ROOT, e)
+            if os.path.isdir(pth) and e != key:
                 try:
-                    if time.time() - os.path.getmtime(p) > 6 * 3600 or len(os.listdir(CACHE_ROOT)) > 12:
-                        shutil.rmtree(p)
+                    if time.time() - os.path.getmtime(pth) > 2 * 3600:
+                        shutil.rmtree(pth)
                 except OSError:
                     pass
         tmp = d + ".tmp%d" % os.getpid()
